@@ -3,6 +3,7 @@ package mon
 import (
 	"fmt"
 	"math"
+	"math/big"
 
 	geom "github.com/twpayne/go-geom"
 	"github.com/twpayne/go-geom/bigxy"
@@ -409,8 +410,79 @@ func egcd(a, b int64) (g, x, y int64) {
 
 // (iii) integer triples whose cross-product terms need more than 53 bits and
 // whose exact determinant is in {-2..2}
+// c10FullWidth: integer triples whose ordinates fill the 53 bits of a double and
+// have both signs, so that the edge vectors need 54 bits and their products 108,
+// with an exact determinant of -2..2 (built with the extended Euclidean algorithm
+// in big integers), optionally scaled by a power of two.
+func c10FullWidth(c *fw.Ctx) {
+	r := c.R
+	bi := func(v int64) *big.Int { return big.NewInt(v) }
+	rnd := func() *big.Int {
+		v := new(big.Int).Lsh(bi(1), 53)
+		v.Add(v, bi(int64(r.Uint64()%(1<<53))))
+		if r.Bool() {
+			v.Neg(v)
+		}
+		return v
+	}
+	var a, b, x, y, g *big.Int
+	for {
+		a, b = rnd(), rnd()
+		x, y = new(big.Int), new(big.Int)
+		g = new(big.Int).GCD(x, y, new(big.Int).Abs(a), new(big.Int).Abs(b))
+		if g.Cmp(bi(1)) == 0 {
+			break
+		}
+	}
+	// |a| x + |b| y = 1  =>  a (sa x) + b (sb y) = 1
+	if a.Sign() < 0 {
+		x.Neg(x)
+	}
+	if b.Sign() < 0 {
+		y.Neg(y)
+	}
+	// (u, v) with a v - b u = 1: v = x, u = -y; reduce u into [0, |a|) along (a, b)
+	u, v := new(big.Int).Neg(y), new(big.Int).Set(x)
+	k := new(big.Int)
+	k.Div(u, a) // Euclidean division: u - k a in [0, |a|)
+	u.Sub(u, new(big.Int).Mul(k, a))
+	v.Sub(v, new(big.Int).Mul(k, b))
+	d := int64(r.Range(-2, 2))
+	ox := new(big.Int).Neg(new(big.Int).Rsh(new(big.Int).Abs(a), 1))
+	if a.Sign() < 0 {
+		ox.Neg(ox)
+	}
+	oy := new(big.Int).Neg(new(big.Int).Rsh(new(big.Int).Abs(b), 1))
+	if b.Sign() < 0 {
+		oy.Neg(oy)
+	}
+	ex, ey := new(big.Int).Add(ox, a), new(big.Int).Add(oy, b)
+	px := new(big.Int).Add(ox, new(big.Int).Mul(bi(d), u))
+	py := new(big.Int).Add(oy, new(big.Int).Mul(bi(d), v))
+	lim := new(big.Int).Lsh(bi(1), 53)
+	var f [6]float64
+	for i, w := range []*big.Int{ox, oy, ex, ey, px, py} {
+		if new(big.Int).Abs(w).Cmp(lim) >= 0 {
+			c.Count("skipped_out_of_band")
+			return
+		}
+		f[i], _ = new(big.Float).SetInt(w).Float64()
+	}
+	sc := 1.0
+	if r.Bool() {
+		sc = math.Ldexp(1, r.Range(-140, 100))
+	}
+	pts := [3][2]float64{{f[0] * sc, f[1] * sc}, {f[2] * sc, f[3] * sc}, {f[4] * sc, f[5] * sc}}
+	c.Count(fmt.Sprintf("full_width_det_%d", d))
+	c10Check(c, pts, "bigint-full-width")
+}
+
 func c10Big(c *fw.Ctx, idx int) {
 	r := c.R
+	if r.Chance(1, 3) {
+		c10FullWidth(c)
+		return
+	}
 	var a, b int64
 	for {
 		a = int64(1)<<uint(r.Range(27, 40)) + int64(r.Range(-1000, 1000))
